@@ -569,10 +569,10 @@ theorem setEntries_ok (sRef : Nat) (l : List (Nat × Nat × Obj)) :
           · exact .inl h1
         · exact .inr h1
 
-theorem writeObjStm_inv {s s' : WState} {items : List (Nat × Nat × Obj)} {raw : Bytes}
-    (hi : Inv s) (hs' : s.stm = none) (h : writeObjStm s items raw = .ok s') :
+theorem writeObjStmAt_inv {s s' : WState} {items : List (Nat × Nat × Obj)} {raw : Bytes}
+    (hi : Inv s) (hs' : s.stm = none) (h : writeObjStmAt s items raw = .ok s') :
     Inv s' ∧ s'.stm = none ∧ s'.opts = s.opts := by
-  unfold writeObjStm at h
+  unfold writeObjStmAt at h
   split at h
   · simp at h
   · rename_i s1 sRef ha
@@ -609,6 +609,22 @@ theorem writeObjStm_inv {s s' : WState} {items : List (Nat × Nat × Obj)} {raw 
             obtain ⟨i4, _, o4, _, _⟩ := streamWrite_inv i3 h3
             obtain ⟨i5, n5, o5⟩ := streamClose_inv i4 h
             exact ⟨i5, n5, by rw [o5, o4, o3]; simp [hop]⟩
+
+theorem foldl_max_ge (items : List (Nat × Nat × Obj)) : ∀ n, n ≤ items.foldl (fun n it => max n (it.1 + 1)) n := by
+  induction items with
+  | nil => intro n; simp
+  | cons it rest ih => intro n; simp only [List.foldl_cons]; exact Nat.le_trans (Nat.le_max_left _ _) (ih _)
+
+theorem reserveNumbers_inv {s : WState} (hi : Inv s) (items : List (Nat × Nat × Obj)) : Inv (reserveNumbers s items) := by
+  have hge := foldl_max_ge items s.nextRef
+  refine ⟨hi.pos_eq, hi.entries, hi.patch, ?_, ?_⟩
+  · intro n e hg; have := hi.below n e hg; simp only [reserveNumbers]; omega
+  · have := hi.npos; simp only [reserveNumbers]; omega
+
+theorem writeObjStm_inv {s s' : WState} {items : List (Nat × Nat × Obj)} {raw : Bytes}
+    (hi : Inv s) (hs' : s.stm = none) (h : writeObjStm s items raw = .ok s') :
+    Inv s' ∧ s'.stm = none ∧ s'.opts = s.opts :=
+  writeObjStmAt_inv (s := reserveNumbers s items) (reserveNumbers_inv hi items) hs' h
 
 theorem writeObjStms_inv (fuel : Nat) : ∀ {s s' : WState} {items : List (Nat × Nat × Obj)} {raws : List Bytes},
     Inv s → s.stm = none → writeObjStms fuel s items raws = .ok s' → Inv s' ∧ s'.stm = none ∧ s'.opts = s.opts := by
@@ -1014,9 +1030,9 @@ theorem setEntries_mono (sRef : Nat) (l : List (Nat × Nat × Obj)) :
     · rename_i x1 n1 hset
       exact ih h k e (setXRef_mono hset k e hk)
 
-theorem writeObjStm_mono {s s' : WState} {items : List (Nat × Nat × Obj)} {raw : Bytes}
-    (h : writeObjStm s items raw = .ok s') : Mono s s' := by
-  unfold writeObjStm at h
+theorem writeObjStmAt_mono {s s' : WState} {items : List (Nat × Nat × Obj)} {raw : Bytes}
+    (h : writeObjStmAt s items raw = .ok s') : Mono s s' := by
+  unfold writeObjStmAt at h
   split at h
   · simp at h
   · rename_i s1 sRef ha
@@ -1036,6 +1052,10 @@ theorem writeObjStm_mono {s s' : WState} {items : List (Nat × Nat × Obj)} {raw
               intro k e hk
               exact setEntries_mono sRef items hse k e (by rw [alloc_xref ha]; exact hk)
             exact ((m0.trans (openStream_mono h2)).trans (streamWrite_mono h3)).trans (streamClose_mono h)
+
+theorem writeObjStm_mono {s s' : WState} {items : List (Nat × Nat × Obj)} {raw : Bytes}
+    (h : writeObjStm s items raw = .ok s') : Mono s s' :=
+  (Mono.of_eq (s := s) (s' := reserveNumbers s items) rfl).trans (writeObjStmAt_mono h)
 
 theorem writeObjStms_mono (fuel : Nat) : ∀ {s s' : WState} {items : List (Nat × Nat × Obj)} {raws : List Bytes},
     writeObjStms fuel s items raws = .ok s' → Mono s s' := by
